@@ -174,12 +174,12 @@ func planC12(c *Ctx, run int64) *Plan {
 				for _, d := range dates {
 					add(cat.Code, rate.Key, d, 3, q)
 					add(cat.Code, rate.Key, d, 4, q)
-					add(cat.Code, rate.Key, d, 5, q) // the table reached through a per-combo country override from another regime
-					add(cat.Code, rate.Key, d, 6, q) // value date later than the issue date, operation date present
-					add(cat.Code, rate.Key, d, 7, q) // an order instead of an invoice
-					add(cat.Code, rate.Key, d, 8, q) // a delivery, with a despatch date that is not the tax date
+					add(cat.Code, rate.Key, d, 5, q)  // the table reached through a per-combo country override from another regime
+					add(cat.Code, rate.Key, d, 6, q)  // value date later than the issue date, operation date present
+					add(cat.Code, rate.Key, d, 7, q)  // an order instead of an invoice
+					add(cat.Code, rate.Key, d, 8, q)  // a delivery, with a despatch date that is not the tax date
 					add(cat.Code, rate.Key, d, 10, q) // the combo spells out the regime's own country
-					add(cat.Code, rate.Key, d, 9, q) // no issue date (the clock supplies it), the value date is the tax date
+					add(cat.Code, rate.Key, d, 9, q)  // no issue date (the clock supplies it), the value date is the tax date
 					if d >= "2000-01-02" {
 						add(cat.Code, rate.Key, d, 0, q)
 						add(cat.Code, rate.Key, d, 1, q)
